@@ -152,6 +152,7 @@ pub fn registry() -> Vec<TypeEntry> {
                     rfaults: vec![],
                     retry: false,
                     in_place: false,
+                    null_field: None,
                 };
                 let o = e.run(&plan, RunOpts { trace: true });
                 let mut p = Probe { wsteps: o.wsteps, rsteps: o.rsteps, records: vec![] };
